@@ -134,6 +134,52 @@ def _pv(t, i):
     return ("enum", word), j
 
 
+def render_value(v):
+    """inverse of parse_value (canonical spacing)"""
+    k = v[0]
+    if k == "var":
+        return "$" + v[1]
+    if k == "list":
+        return "[" + ", ".join(render_value(x) for x in v[1]) + "]"
+    if k == "object":
+        return "{" + ", ".join("%s: %s" % (n, render_value(x)) for n, x in v[1]) + "}"
+    if k == "string":
+        return json.dumps(v[1])
+    if k == "bool":
+        return "true" if v[1] else "false"
+    if k == "null":
+        return "null"
+    return v[1]
+
+
+def object_paths(v, path=()):
+    """paths of all object literals with >= 2 fields inside a parsed value"""
+    out = []
+    if v[0] == "object":
+        if len(v[1]) >= 2:
+            out.append(path)
+        for i, (_n, x) in enumerate(v[1]):
+            out.extend(object_paths(x, path + (i,)))
+    elif v[0] == "list":
+        for i, x in enumerate(v[1]):
+            out.extend(object_paths(x, path + (i,)))
+    return out
+
+
+def permute_object(v, path, perm):
+    """copy of parsed value `v` with the fields of the object at `path` reordered by `perm`"""
+    if not path:
+        return ("object", [v[1][k] for k in perm])
+    i = path[0]
+    if v[0] == "object":
+        fields = list(v[1])
+        fields[i] = (fields[i][0], permute_object(fields[i][1], path[1:], perm))
+        return ("object", fields)
+    items = list(v[1])
+    items[i] = permute_object(items[i], path[1:], perm)
+    return ("list", items)
+
+
 def canon_value(v):
     """order-insensitive (for object fields) canonical form used to compare argument values."""
     if v[0] == "list":
